@@ -100,12 +100,15 @@ Proof. reflexivity. Qed.
 Lemma Ok_inj' {A} (a b : A) : Ok a = Ok b -> a = b.
 Proof. intro H. inversion H. reflexivity. Qed.
 
+Lemma fold_qred l : (fold_right (fun a b => Qred (a + b)) 0 l == fold_right Qplus 0 l)%Q.
+Proof. induction l as [|x t IH]; cbn [fold_right]; [reflexivity|]. rewrite Qred_correct, IH. reflexivity. Qed.
+
 Lemma msd_is_resid P Qs m : msd P Qs = Ok m ->
   (m == resid P Qs / inject_Z (Z.of_nat (List.length P)))%Q.
 Proof.
   unfold msd. destruct (Nat.eqb (List.length P) (List.length Qs)); cbn [negb]; [|intro H; discriminate H].
   destruct P as [|p t]; [intro H; discriminate H|].
-  intro H. apply Ok_inj' in H. rewrite <- H. etransitivity; [apply Qred_correct|]. unfold resid. reflexivity.
+  intro H. apply Ok_inj' in H. rewrite <- H. etransitivity; [apply Qred_correct|]. rewrite fold_qred. unfold resid. reflexivity.
 Qed.
 
 Theorem irmsd_value_is_kernel_residual rmat xd xr m :
